@@ -255,11 +255,12 @@ Proof. reflexivity. Qed.
 
 Lemma cmd_add_missing : forall c args s a,
   In a args -> exists_on_disk (ms_w s) a = false -> tracked (ms_w s) a = false ->
+  is_dir (idx_of (ms_w s)) a = false ->
   cmd_add c args s = (Err, s).
 Proof.
-  intros c args s a Hin Hd Ht. unfold cmd_add.
+  intros c args s a Hin Hd Ht Hdir. unfold cmd_add.
   destruct args as [|a0 r]; [reflexivity|]. cbn [is_nil negb]. ev.
-  rewrite (forallb_false_ex _ _ _ a Hin); [reflexivity|]. rewrite Hd, Ht. reflexivity.
+  rewrite (forallb_false_ex _ _ _ a Hin); [reflexivity|]. rewrite Hd, Ht, Hdir. reflexivity.
 Qed.
 
 Theorem add_nothing_refused : forall e w x,
@@ -268,10 +269,10 @@ Proof. intros e w x Hi Hx. apply (step_refused e _ w x); try assumption; [discri
 
 Theorem add_missing_refused : forall e w x args a,
   w_inited w = true -> loaded w x ->
-  In a args -> exists_on_disk w a = false -> tracked w a = false ->
+  In a args -> exists_on_disk w a = false -> tracked w a = false -> is_dir (idx_of w) a = false ->
   step (ACmd e (CAdd args)) w = (w, OErr, []).
 Proof.
-  intros e w x args a Hi Hx Hin Hd Ht. apply (step_refused e _ w x); try assumption; [discriminate|].
+  intros e w x args a Hi Hx Hin Hd Ht Hdir. apply (step_refused e _ w x); try assumption; [discriminate|].
   cbn [dispatch]. apply (cmd_add_missing x args _ a); assumption.
 Qed.
 
